@@ -25,7 +25,7 @@ func init() {
 			"the reference lexer's token starts: offset in range, offset is a token start (or end of input), line = 1 + line terminators before, column = distance from line start + 1, Src is the file the text came from, and for named nodes the text at the offset is the node's anchor. " +
 			"distinct = distinct (carrier type, preceding-trivia class) pairs checked",
 		Assumptions: []string{
-			"lexical errors (identified by replaying the lexer alone) may legitimately point inside a token or at end of input: only bounds and line/column consistency are required for them",
+			"lexical errors (identified by replaying the lexer alone) may legitimately point inside the text that fails to form a token or at end of input: bounds, line/column consistency and, when the reference lexer fails on the same text, an offset between the start of the failing lexeme and the character that rules it out are required of them",
 			"nil positions of synthetic nodes (__typename, injected introspection fields, list item wrappers) are skipped",
 			"inputs the reference lexer cannot lex are skipped for the token-start clause",
 		},
